@@ -35,6 +35,23 @@ fn isolated(id: &str) -> Option<(&'static str, u64)> {
         "C02" => Some(("c02-crash", 120)),
         "C03" => Some(("c03-crash", 120)),
         "C04" => Some(("c04-storage", 60)),
+        // every check that runs database code: a change that corrupts memory sizes can abort
+        // the process (allocation failure, stack overflow); in a child that is attributed to
+        // the case in flight instead of killing the check
+        "C05" => Some(("c05-maintenance", 120)),
+        "C06" => Some(("c06-differential", 120)),
+        "C08" => Some(("c08-history", 120)),
+        "C09" => Some(("c09-history", 120)),
+        "C10" => Some(("c10-history", 120)),
+        "C11" => Some(("c11-history", 120)),
+        "C12" => Some(("c12-values", 120)),
+        "C13" => Some(("c13-rollback", 120)),
+        "C14" => Some(("c14-search", 120)),
+        "C15" => Some(("c15-search", 120)),
+        "C16" => Some(("c16-search", 120)),
+        "C17" => Some(("c17-search", 120)),
+        "C18" => Some(("c18-search", 120)),
+        "C22" => Some(("c22-types", 120)),
         "C07" => Some(("c07-damage", 30)),
         "C21" => Some(("c21-deserialize", 30)),
         // a race that corrupts a read can send the reader into an endless scan: watchdog
